@@ -87,9 +87,14 @@ JudgeSegments ==
   \* the same gradient is requested on both sides of every separatrix
   /\ Clause("SameGradientBothSides", \A k \in 1..Len(Obs.grads) : Obs.grads[k] = Obs.grads[1])
 
+\* "varies continuously with its parameters", everywhere and not only at the documented switch of forms: over a sweep of the end-gradient
+\* ratio(s) from 1/4 to 4 in steps of 1 per cent the faces move by at most 2 (upper-lower) per unit of ln(ratio) (measured on the unchanged
+\* tree: at most 0.5); Obs.maxslope is that rate times 1000
+JudgeSweep == Clause("ContinuousInParameters", Obs.ok = 1 /\ Obs.maxslope <= 2000)
+
 Judge ==
   /\ done = FALSE
-  /\ IF Obs.kind = "segments" THEN JudgeSegments ELSE JudgeFunc
+  /\ CASE Obs.kind = "segments" -> JudgeSegments [] Obs.kind = "sweep" -> JudgeSweep [] OTHER -> JudgeFunc
   /\ done' = TRUE /\ UNCHANGED <<cs, tid>>
 TSpec == TInit /\ [][Judge]_<<cs, tid, done>>
 =============================================================================
